@@ -272,6 +272,8 @@ func spell(p string, how int) string {
 		return p + "/"
 	case 6:
 		return "/zz/../" + rel
+	case 7:
+		return "../" + rel // not generated: outside the spellings the properties name, and rejected by the base-path layer of the documented composition
 	}
 	return p
 }
